@@ -407,6 +407,69 @@ fn dotted_names_box(a: &mut Acc) {
     cleanup("c20d");
 }
 
+/// tags are names: two tags that differ only in the case of a letter are two tags, in every lookup (`%proto`, `-t proto`, the cache of finished
+/// tags), whichever is declared first and whether one tag or all are asked for
+fn case_twin_tags_box(a: &mut Acc) {
+    let decl = ["@Proto [\"w1\"]:\n    \"r1\"\n", "@proto [\"w2\"]:\n    \"r2\"\n", "@daughter %proto:\n    \"r3\"\n", "@Daughter %Proto:\n    \"r3\"\n"];
+    let orders: [[usize; 4]; 4] = [[0, 1, 2, 3], [1, 0, 2, 3], [2, 3, 0, 1], [3, 2, 1, 0]];
+    let mut n = 0;
+    for order in orders { for only in [None, Some("daughter"), Some("Daughter"), Some("proto"), Some("Proto")] {
+        n += 1;
+        let sb = Sandbox::new("c20t", n);
+        for (nm, t) in RULE_FILES { sb.write(&format!("{}.rsca", nm), t); }
+        for (nm, t) in WORD_FILES { sb.write(&format!("{}.wsca", nm), t); }
+        let cfg: String = order.iter().map(|i| decl[*i]).collect();
+        sb.write("config.asca", &cfg);
+        let mut args = vec!["seq", ".", "-o", "-y"]; if let Some(t) = only { args.extend(["-t", t]); }
+        let o = run_cli(&sb.dir, &args); a.procs += 1;
+        let lib = |files: &[usize], wf: usize| -> Option<Vec<String>> { let groups: Vec<RuleGroup> = files.iter().flat_map(|f| formats::parse_rsca(RULE_FILES[*f].1)).collect(); match guarded(5_000_000, || asca::run(&groups, &formats::parse_wsca(WORD_FILES[wf].1), &[], &[])) { Out::Ok(Ok(v)) => Some(v.into_iter().filter(|x| !x.is_empty()).collect()), _ => None } };
+        for (tag, files, wf) in [("Proto", vec![0usize], 0usize), ("proto", vec![1], 1), ("daughter", vec![1, 2], 1), ("Daughter", vec![0, 2], 0)] {
+            if let Some(t) = only { if t != tag { // a tag that was not asked for is not written
+                if sb.list(&format!("out/{}", tag)).is_empty() { continue; }
+                a.evals += 1; a.viols.push(Viol { key: format!("case-twin-tags|{}|-t {}|wrote {}", cfg.split_whitespace().collect::<Vec<_>>().join(" "), t, tag), desc: format!("`asca seq -t {}` wrote output for the tag `{}`; config: {}", t, tag, cfg), case: json!({"config": cfg, "alias_stages": true}) }); continue;
+            } }
+            let Some(want) = lib(&files, wf) else { continue };
+            a.evals += 1;
+            match out_file(&sb, tag) {
+                Some((_, g)) if nonblank(&g) == want => a.ok += 1,
+                got => a.viols.push(Viol { key: format!("case-twin-tags|{}|{}|{}", cfg.split_whitespace().collect::<Vec<_>>().join(" "), only.unwrap_or("all"), tag), desc: format!("tag `{}` (asked for: {}): `asca seq` wrote {:?}, its rule history applied to its own root's words gives {:?} (exit {:?}, stderr {}); config: {}", tag, only.unwrap_or("all tags"), got, want, o.code, o.stderr.replace('\n', " | "), cfg), case: json!({"config": cfg, "alias_stages": true}) }),
+            }
+        }
+    } }
+    cleanup("c20t");
+}
+
+/// a parent that fails when it is run: its daughters have nothing to start from, whether the daughter is asked for alone or all tags are run,
+/// and whatever ran before in the same invocation - the answer for a tag does not depend on the company it is run in
+fn failing_parent_box(a: &mut Acc) {
+    let mut n = 0;
+    for (d_words, order) in [(true, [0usize, 1, 2]), (true, [1, 2, 0]), (false, [0, 1, 2]), (true, [2, 1, 0])] {
+        let decl = ["@proto [\"w1\"]:\n    \"bad\"\n".to_string(), format!("@west %proto{}:\n    \"r1\"\n", if d_words { " [\"w2\"]" } else { "" }), format!("@east %proto{}:\n    \"r2\"\n", if d_words { " [\"w2\"]" } else { "" })];
+        let mut outs: Vec<(String, Vec<(String, Option<String>)>)> = vec![];
+        for only in [None, Some("west"), Some("east")] {
+            n += 1;
+            let sb = Sandbox::new("c20f", n);
+            for (nm, t) in RULE_FILES { sb.write(&format!("{}.rsca", nm), t); }
+            for (nm, t) in WORD_FILES { sb.write(&format!("{}.wsca", nm), t); }
+            sb.write("bad.rsca", "@ unbound\n    V > [Aback] / _ #\n");
+            let cfg: String = order.iter().map(|i| decl[*i].clone()).collect();
+            sb.write("config.asca", &cfg);
+            let mut args = vec!["seq", ".", "-o", "-y"]; if let Some(t) = only { args.extend(["-t", t]); }
+            let _ = run_cli(&sb.dir, &args); a.procs += 1;
+            outs.push((only.unwrap_or("all").to_string(), ["west", "east"].iter().map(|t| (t.to_string(), out_file(&sb, t).map(|x| x.1))).collect()));
+        }
+        let cfg: String = order.iter().map(|i| decl[*i].clone()).collect();
+        for (k, tag) in ["west", "east"].iter().enumerate() {
+            a.evals += 1;
+            let alone = &outs[1 + k].1[k].1; let together = &outs[0].1[k].1;
+            if alone == together { a.ok += 1; } else {
+                a.viols.push(Viol { key: format!("failing-parent|{}|{}", cfg.split_whitespace().collect::<Vec<_>>().join(" "), tag), desc: format!("tag `{}` under a parent that fails: `asca seq -t {}` wrote {:?}, `asca seq` for all tags wrote {:?} for it; config: {}", tag, tag, alone, together, cfg), case: json!({"config": cfg, "alias_stages": true}) });
+            }
+        }
+    }
+    cleanup("c20f");
+}
+
 /// chains root <- mid <- leaf in which root and mid list TWO rule files each (every ordered pair of the three files, no filter) and the leaf one;
 /// declared forwards and backwards. These are the shapes in which the order of an ancestor's own entries matters to the rule history
 fn chain_configs() -> Vec<(Vec<Tag>, Vec<usize>)> {
@@ -501,6 +564,12 @@ pub fn run() -> i32 {
     r.boxes.push(json!({"box": "rule, word and alias files with a dot in their names, extension left out or spelled out, next to decoys named by the cut-off stem", "comparisons": tdn.evals, "cli_processes": tdn.procs, "held": tdn.ok}));
     r.guard(tdn.evals >= 16, "dotted names box ran");
     t.merge(tdn);
+    let mut tct = Acc::default();
+    case_twin_tags_box(&mut tct);
+    failing_parent_box(&mut tct);
+    r.boxes.push(json!({"box": "tags that differ only in case (4 declaration orders x all / each single tag) and daughters of a parent that fails (alone vs all tags)", "comparisons": tct.evals, "cli_processes": tct.procs, "held": tct.ok}));
+    r.guard(tct.ok >= 30, "case-twin / failing-parent boxes ran");
+    t.merge(tct);
     let mut tpa = Acc::default();
     pipeline_alias_box(&mut tpa);
     r.boxes.push(json!({"box": "three-tag pipelines whose tags name different romanisation files (root: @into only, daughters: @from only): seq == one library run == conv tag -r + run -j, for every tag", "comparisons": tpa.evals, "cli_processes": tpa.procs, "held": tpa.ok}));
